@@ -233,12 +233,71 @@ fn points(rng: &mut Rng, rules: &[RuleN], doms: &[(i64, i64)], u: i64, step: i64
     out
 }
 
+/// what "the same region" means in the source: the same condition sets, whatever their order, and
+/// whatever conditions covering a whole axis they carry.  Computed from the (intersected) source
+/// conditions only.
+fn canon_region(r: &RuleN, u: i64) -> Vec<BoxN> {
+    let mut boxes: Vec<BoxN> = r
+        .boxes
+        .iter()
+        .map(|b| {
+            let mut e: BoxN = b.iter().map(|(a, mn, mx)| (*a, clamp_lo(*mn, u), clamp_hi(*mx, u))).filter(|(_, lo, hi)| !(*lo == -u && *hi == u)).collect();
+            e.sort();
+            e
+        })
+        .collect();
+    boxes.sort();
+    boxes
+}
+
+/// The firing rules, with those of one and the same region folded into one map in which the EARLIER
+/// rule's replacement of a glyph stands (a rule whose map also occurs elsewhere in the list is left
+/// alone: its region is joined with that of its twin first).  Returns the folded maps, whether a
+/// chain inside a group makes the order matter, and for every glyph that members of one group
+/// replace differently the replacements of the later members.
+fn fold_same_region(rules_t: &[RuleN], canon: &[Vec<BoxN>], unique_map: &[bool], act: &[usize]) -> (Vec<SubMap>, bool, Vec<(usize, Vec<usize>)>) {
+    let mut groups: Vec<Vec<usize>> = Vec::new();
+    for &i in act {
+        let pos = if unique_map[i] { groups.iter().position(|g| unique_map[g[0]] && canon[g[0]] == canon[i]) } else { None };
+        match pos {
+            Some(k) => groups[k].push(i),
+            None => groups.push(vec![i]),
+        }
+    }
+    let mut maps = Vec::new();
+    let mut chain = false;
+    let mut later: Vec<(usize, Vec<usize>)> = Vec::new();
+    for g in &groups {
+        let mut m: BTreeMap<usize, usize> = BTreeMap::new();
+        for &i in g {
+            for (a, b) in &rules_t[i].subs {
+                match m.get(a) {
+                    None => {
+                        m.insert(*a, *b);
+                    }
+                    Some(first) if first != b => match later.iter_mut().find(|(k, _)| k == a) {
+                        Some((_, v)) => v.push(*b),
+                        None => later.push((*a, vec![*b])),
+                    },
+                    _ => {}
+                }
+                if g.iter().any(|&j| j != i && a != b && rules_t[j].subs.iter().any(|(k, _)| k == b)) {
+                    chain = true;
+                }
+            }
+        }
+        maps.push(m.into_iter().collect());
+    }
+    (maps, chain, later)
+}
+
 struct Tally {
     emitted: BTreeMap<String, usize>,
     points: usize,
     kinds: BTreeMap<String, usize>,
     mism: BTreeMap<String, usize>,
     order_dependent_skipped: usize,
+    same_region_conflict_points: usize,
 }
 impl Tally {
     fn viol(&mut self, key: &str, desc: String, extra: serde_json::Value) {
@@ -273,33 +332,52 @@ fn check_points(
     let rules_t = intersected(rules);
     let has_empty_region = rules.iter().any(|r| r.boxes.is_empty());
     let has_axis_twice = rules.iter().any(|r| r.boxes.iter().any(|b| (0..b.len()).any(|i| (0..i).any(|j| b[i].0 == b[j].0))));
+    let canon: Vec<Vec<BoxN>> = rules_t.iter().map(|r| canon_region(r, u)).collect();
+    let unique_map: Vec<bool> = (0..rules.len()).map(|i| (0..rules.len()).all(|j| j == i || rules[j].subs != rules[i].subs)).collect();
     for p in pts {
         t.points += 1;
         let act: Vec<usize> = (0..rules.len()).filter(|i| rule_active(p, &rules[*i], u)).collect();
+        // what the source says: the firing rules one after the other, in rule order
         let spec_maps: Vec<&SubMap> = act.iter().map(|i| &rules[*i].subs).collect();
-        let inter = interference(&spec_maps);
+        // does the order of application matter?  Rules of one and the same region are one unit (the
+        // earlier rule's replacement stands, whatever else happens); between units it is the known
+        // finding that the order is by content
+        let (folded, chain_in_group, later_of) = fold_same_region(&rules_t, &canon, &unique_map, &act);
+        let folded_refs: Vec<&SubMap> = folded.iter().collect();
+        let inter = if chain_in_group { Interf::Chain } else { interference(&folded_refs) };
         if !order_is_final && inter != Interf::None {
             // the order in which the maps are applied is only decided when the lookups are built:
             // such locations are judged on the compiled font (stage E)
             t.order_dependent_skipped += 1;
             continue;
         }
+        if !later_of.is_empty() {
+            t.same_region_conflict_points += 1;
+        }
         let got = font(p).unwrap_or_default();
         let got_refs: Vec<&SubMap> = got.iter().collect();
         let mut diff = None;
+        let mut later_won = None;
         for g in 0..nglyphs {
             let (s, f) = (apply_seq(&spec_maps, g), apply_seq(&got_refs, g));
             if s != f {
-                diff = Some((g, s, f));
-                break;
+                if diff.is_none() {
+                    diff = Some((g, s, f));
+                }
+                if later_won.is_none() && later_of.iter().any(|(k, v)| *k == g && v.contains(&f)) {
+                    later_won = Some((g, s, f));
+                }
             }
         }
-        let Some((g, s, f)) = diff else { continue };
+        let Some((g, s, f)) = later_won.or(diff) else { continue };
         bad += 1;
-        // first the four situations that are known findings (they can occur in any input), then the
-        // repaired classes by what distinguishes their inputs, so that they are reported under their
-        // own key should they ever return
-        let key = if inter == Interf::Conflict {
+        // rules of one region: the earliest must win, independently of everything else; then the four
+        // situations that are known findings (they can occur in any input), then the repaired classes
+        // by what distinguishes their inputs, so that they are reported under their own key should
+        // they ever return
+        let key = if later_won.is_some() && inter == Interf::None {
+            "same-region-rules-later-rule-wins"
+        } else if inter == Interf::Conflict {
             "later-rule-wins-conflicting-subs"
         } else if inter == Interf::Chain {
             "chained-subs-not-applied-in-rule-order"
@@ -488,6 +566,54 @@ fn intersected(rules: &[RuleN]) -> Vec<RuleN> {
             subs: r.subs.clone(),
         })
         .collect()
+}
+
+/// ordinary rules, and among them 2-3 rules that have one and the same region (written identically,
+/// with the condition sets in another order, or with a redundant full-range condition) and replace
+/// one glyph differently
+fn gen_same_region_rules(rng: &mut Rng, cfg: &GenCfg, n: usize) -> Vec<RuleN> {
+    let n = n.max(3);
+    let mut rules = gen_rules(rng, cfg, n, false, false);
+    let mut region: Vec<Vec<Cond>> = Vec::new();
+    while region.is_empty() || region.iter().all(|b| b.is_empty()) {
+        region = rules[rng.below(n as u64) as usize].boxes.clone();
+        if rng.chance(1, 2) {
+            let extra = rules[rng.below(n as u64) as usize].boxes.clone();
+            region.extend(extra);
+        }
+        if region.iter().all(|b| b.is_empty()) {
+            region = vec![vec![(0, Some(-cfg.u / 2), Some(cfg.u / 2))]];
+        }
+    }
+    let k = rng.range(2, 3) as usize;
+    let mut pos: Vec<usize> = (0..n).collect();
+    rng.shuffle(&mut pos);
+    let mut twins: Vec<usize> = pos[..k].to_vec();
+    twins.sort();
+    let g = 2 * twins[0];
+    for (j, &t) in twins.iter().enumerate() {
+        let mut b = region.clone();
+        match rng.below(3) {
+            0 => {}
+            1 => rng.shuffle(&mut b),
+            _ => {
+                for bx in b.iter_mut() {
+                    if let Some(a) = (0..cfg.naxes).find(|a| bx.iter().all(|c| c.0 != *a)) {
+                        bx.push((a, if rng.chance(1, 2) { None } else { Some(-cfg.u - 2) }, Some(cfg.u)));
+                        bx.sort_by_key(|c| c.0);
+                    }
+                }
+            }
+        }
+        let mut m = vec![(g, 2 * t + 1)];
+        if j > 0 && rng.chance(1, 2) {
+            m.push((2 * t, 2 * t + 1)); // a glyph only this rule replaces
+        }
+        m.sort();
+        m.dedup();
+        rules[t] = RuleN { boxes: b, subs: m };
+    }
+    rules
 }
 
 fn overlaps_somewhere(rules: &[RuleN], pts: &[Vec<i64>], u: i64) -> bool {
@@ -688,6 +814,52 @@ fn gen_case_e(rng: &mut Rng, nrules: usize, messy: bool) -> CaseE {
         rules.push(RuleD { condsets, subs });
     }
     CaseE { axes, rules, last: rng.chance(1, 3), nglyphs: 2 * nrules.max(3) }
+}
+
+/// turn 2-3 rules of a generated design into rules of one and the same region (written identically,
+/// with the condition sets in another order, or with a redundant condition covering a whole axis)
+/// that replace one glyph differently
+fn make_same_region(rng: &mut Rng, c: &mut CaseE) {
+    let n = c.rules.len();
+    if n < 2 {
+        return;
+    }
+    // ordinary, pairwise different maps first
+    for (i, r) in c.rules.iter_mut().enumerate() {
+        r.subs = vec![(2 * i, 2 * i + 1)];
+    }
+    let mut region = c.rules.iter().map(|r| r.condsets.clone()).find(|cs| cs.iter().any(|b| !b.is_empty())).unwrap_or_else(|| vec![vec![(0, Some(256), Some(768))]]);
+    if rng.chance(1, 2) {
+        let extra = c.rules[rng.below(n as u64) as usize].condsets.clone();
+        region.extend(extra);
+    }
+    let k = (rng.range(2, 3) as usize).min(n);
+    let mut pos: Vec<usize> = (0..n).collect();
+    rng.shuffle(&mut pos);
+    let mut twins: Vec<usize> = pos[..k].to_vec();
+    twins.sort();
+    let g = 2 * twins[0];
+    for (j, &t) in twins.iter().enumerate() {
+        let mut b = region.clone();
+        match rng.below(3) {
+            0 => {}
+            1 => rng.shuffle(&mut b),
+            _ => {
+                for cs in b.iter_mut() {
+                    if let Some(a) = (0..c.axes.len()).find(|a| cs.iter().all(|x| x.0 != *a)) {
+                        cs.push((a, Some(-64), Some(c.axes[a].max + 64)));
+                    }
+                }
+            }
+        }
+        let mut m = vec![(g, 2 * t + 1)];
+        if j > 0 && rng.chance(1, 2) {
+            m.push((2 * t, 2 * t + 1));
+        }
+        m.sort();
+        m.dedup();
+        c.rules[t] = RuleD { condsets: b, subs: m };
+    }
 }
 
 impl CaseE {
@@ -929,7 +1101,7 @@ fn main() {
     let nbig = arg_val(args, "--big", 2) as usize;
     quiet_panics();
     let mut rng = Rng::new(seed);
-    let mut t = Tally { emitted: BTreeMap::new(), points: 0, kinds: BTreeMap::new(), mism: BTreeMap::new(), order_dependent_skipped: 0 };
+    let mut t = Tally { emitted: BTreeMap::new(), points: 0, kinds: BTreeMap::new(), mism: BTreeMap::new(), order_dependent_skipped: 0, same_region_conflict_points: 0 };
     let mut id = 0usize;
 
     // ---- stage E: designspace <rules> through the compiler ----
@@ -978,6 +1150,17 @@ fn main() {
         RuleD { condsets: vec![vec![(0, Some(512), None)]], subs: vec![(2, 4)] },
         RuleD { condsets: vec![vec![(0, Some(256), None)]], subs: vec![(0, 2)] },
     ])));
+    // two rules on one region replace g00 differently; a third, elsewhere, in between
+    fixed.push(("font-same-region-conflict", CaseE {
+        axes: vec![AxisE { tag: 2, dflt: 0, max: 1024 }, AxisE { tag: 1, dflt: 512, max: 1024 }],
+        rules: vec![
+            RuleD { condsets: vec![vec![(0, Some(512), Some(768))], vec![(1, Some(896), None)]], subs: vec![(0, 1)] },
+            RuleD { condsets: vec![vec![(0, None, Some(256))]], subs: vec![(4, 5)] },
+            RuleD { condsets: vec![vec![(1, Some(896), Some(1088))], vec![(0, Some(512), Some(768)), (1, Some(-64), Some(1088))]], subs: vec![(0, 3), (2, 3)] },
+        ],
+        last: false,
+        nglyphs: 6,
+    }));
     // a range written as two conditions: wght >= 256 and wght <= 768
     fixed.push(("font-two-conditions-on-one-axis", one_axis(vec![
         RuleD { condsets: vec![vec![(0, Some(256), None), (0, None, Some(768))]], subs: vec![(0, 1)] },
@@ -992,8 +1175,12 @@ fn main() {
             _ => rng.range(6, 9) as usize,
         };
         let messy = k % 5 == 4;
-        let c = gen_case_e(&mut rng, nr, messy);
-        stage_e_case(&mut rng, &mut t, &mut id, k, if messy { "font-messy-subs" } else { "font" }, &c, 800);
+        let same_region = k % 5 == 2;
+        let mut c = gen_case_e(&mut rng, if same_region { nr.max(3) } else { nr }, messy);
+        if same_region {
+            make_same_region(&mut rng, &mut c);
+        }
+        stage_e_case(&mut rng, &mut t, &mut id, k, if same_region { "font-same-region-conflict" } else if messy { "font-messy-subs" } else { "font" }, &c, 800);
     }
     if nbig > 0 {
         // 65 rules through the compiler: the crafted list on the Weight axis
@@ -1022,8 +1209,9 @@ fn main() {
             _ => rng.range(9, 12) as usize,
         };
         let messy = k % 4 == 3;
-        let rules = gen_rules(&mut rng, &cfg, nr, messy, true);
-        let kind = if messy { "overlay-messy-subs" } else { "overlay" };
+        let same_region = k % 6 == 5;
+        let rules = if same_region { gen_same_region_rules(&mut rng, &cfg, nr) } else { gen_rules(&mut rng, &cfg, nr, messy, true) };
+        let kind = if same_region { "overlay-same-region-conflict" } else if messy { "overlay-messy-subs" } else { "overlay" };
         stage_a_case(&mut rng, &mut t, &mut id, kind, &cfg, rules, 1500);
     }
     // 63 / 64 rules: the last sizes one machine word holds
@@ -1046,5 +1234,6 @@ fn main() {
     }
 
     emit_stat(json!({"locations_checked": t.points, "extra_evaluations": t.points, "case_kinds": t.kinds, "predicate_failures_by_key": t.mism,
-        "overlay_stage_locations_with_order_dependent_rules_left_to_font_stage": t.order_dependent_skipped}));
+        "overlay_stage_locations_with_order_dependent_rules_left_to_font_stage": t.order_dependent_skipped,
+        "locations_inside_a_region_shared_by_conflicting_rules_judged": t.same_region_conflict_points}));
 }
